@@ -808,7 +808,7 @@ func chunkSegment(init *mp4.InitSegment, seg *mp4.MediaSegment, segMeta segMeta,
 			chunkNr++
 		}
 	}
-	if thisChunkDur > 0 {
+	if ch.frag.Moof.Traf.Trun.SampleCount() > 0 { // also when the remaining samples have duration 0
 		ch.dur = uint64(chunkDur)
 		chunks = append(chunks, ch)
 	}
